@@ -33,7 +33,10 @@ RULE = (
     '(twice: second pass answers from the lru caches) with <, <=, >, >=, ==, '
     '!= against the oracle value; standardise() must be idempotent and '
     'keep the value; equal standardised points must hash equal; (p+i)-i == '
-    'p, (p+i) has value p+len(i), p-(p-i) == i, (p+i)-p == i. Non-trivial = '
+    'p with the value of p (sums that leave years 0000-9999 without expanded '
+    'year digits are out of domain; the value of p+i and point differences '
+    'are recorded as observation classes only: the statement does not cover '
+    'them). Non-trivial = '
     'two different spellings of one value, or points in two different zone '
     'spellings, or an addition crossing a month/year boundary; distinct by '
     'the whole case.')
@@ -320,10 +323,29 @@ def _clear_iso_caches():
                 obj.cache_clear()
 
 
+ORDINAL_SIG = 'C18:iso:ordinal-or-week-date-spelling-mishandled'
+
+
 def check_case(case, ctx: Ctx) -> CaseResult:
     if case['mode'] == 'integer':
         return _check_integer(case, ctx)
-    return _check_iso(case, ctx)
+    res = _guarded_iso(case, ctx)
+    if res.violations and any(
+            pt['sp'] in ('ordinal', 'week') for pt in case['pts']):
+        # differential: the same instants written as plain calendar dates
+        import copy
+        twin = copy.deepcopy(case)
+        for pt in twin['pts']:
+            if pt['sp'] in ('ordinal', 'week'):
+                pt['sp'] = 'basic'
+        res2 = _guarded_iso(twin, ctx)
+        if not res2.violations:
+            v = res.violations[0]
+            res.violations = [Violation(
+                ORDINAL_SIG,
+                f'[{v.sig}] {v.detail} -- holds when the same points are '
+                f'written as calendar dates')]
+    return res
 
 
 def _pairs(viol, label, objs, vals, names):
@@ -396,9 +418,8 @@ def _check_integer(case, ctx):
                 back = q - iv
                 diff = q - p
                 d2 = p - (p - iv)
-                ok = (int(q) == v + n and back == p and int(back) == v
-                      and diff == iv and int(diff) == n and d2 == iv
-                      and (q > p) is (n > 0) and (q == p) is (n == 0))
+                # the statement: adding then subtracting returns the point
+                ok = (back == p and int(back) == v)
             except Exception as exc:
                 viol.append(Violation(
                     f'C18:integer:arith-crash:{exc_sig(exc)}',
@@ -421,6 +442,27 @@ def _dedupe(viol):
     return out
 
 
+def _guarded_iso(case, ctx):
+    """_check_iso; an exception raised from inside cylc.flow on a generated
+    (valid) point is a crash violation, anything else a harness error."""
+    try:
+        return _check_iso(case, ctx)
+    except Exception as exc:
+        sig = exc_sig(exc)
+        if sig.endswith('@?'):
+            raise
+        return CaseResult([Violation(
+            f'C18:iso:crash:{sig}', f'{exc!r} on {case}')], False, ['iso'])
+
+
+def _representable(cal, v, assumed):
+    """Instant v (minutes) falls in years 0000..9999 of the local zone,
+    with a day of margin."""
+    lo = days_from_epoch(cal, 0, 1, 2) * 1440
+    hi = days_from_epoch(cal, 9999, 12, 29) * 1440
+    return lo <= v + assumed <= hi
+
+
 def _check_iso(case, ctx):
     from cylc.flow.cycling import iso8601
     from cylc.flow.cycling.iso8601 import ISO8601Point, ISO8601Interval
@@ -433,8 +475,12 @@ def _check_iso(case, ctx):
     else:
         kw['time_zone'] = tz
     if case.get('ext_fmt'):
+        # an extended-format dump needs the extended zone form (+hh:mm)
+        ztxt = tz or 'Z'
+        if len(ztxt) == 5:
+            ztxt = ztxt[:3] + ':' + ztxt[3:]
         kw['custom_dump_format'] = (
-            ('+X' if xyd else '') + 'CCYY-MM-DDThh:mm' + (tz or 'Z'))
+            ('+X' if xyd else '') + 'CCYY-MM-DDThh:mm' + ztxt)
     iso8601.init(**kw)
     assumed = tz_minutes(tz)
     classes = ['iso', 'cal:' + cal, 'tz:' + str(tz), f'xyd:{xyd}']
@@ -455,6 +501,11 @@ def _check_iso(case, ctx):
         classes.append('two-spellings-of-one-value')
     if len(zones) > 1:
         classes.append('mixed-zones')
+    if not xyd and not all(_representable(cal, v, assumed) and
+                           _representable(cal, v, 0) for v in vals):
+        # within a day of year 0000 / 9999: a zone shift leaves the range
+        # that can be written without expanded year digits - out of domain
+        return CaseResult([], False, classes + ['out-of-domain:year-range'])
     pts = [ISO8601Point(s) for s in names]
     # every generated spelling must be accepted
     for s in names:
@@ -496,8 +547,14 @@ def _check_iso(case, ctx):
     ivs = [ISO8601Interval(s) for s in case['ivs']]
     _pairs(viol, 'iso-interval', ivs, ivals, case['ivs'])
     crossed = False
+    obs = set()
     for p, v, s in zip(pts, vals, names):
         for iv, n, isr in zip(ivs, ivals, case['ivs']):
+            if not xyd and not _representable(cal, v + n, assumed):
+                # the sum lies outside years 0000-9999, which cannot be
+                # written without expanded year digits: out of domain
+                classes.append('sum-out-of-year-range')
+                continue
             try:
                 q = p + iv
                 qv = parse_result(ISO8601Point(q.value).standardise().value,
@@ -505,12 +562,16 @@ def _check_iso(case, ctx):
                 back = q - iv
                 bv = parse_result(
                     ISO8601Point(back.value).standardise().value, cal)
-                diff = q - p
-                d2 = p - (p - iv)
-                ok = (qv == v + n and bv == v and back == p
-                      and diff == iv and d2 == iv
-                      and (q > p) is (n > 0) and (q < p) is (n < 0)
-                      and (q == p) is (n == 0))
+                # the statement: adding then subtracting returns the point
+                ok = (bv == v and back == p)
+                # beyond the statement (recorded, never a violation)
+                if qv != v + n:
+                    obs.add('observation:sum-value-differs')
+                try:
+                    if (q - p) != iv or (p - (p - iv)) != iv:
+                        obs.add('observation:point-difference-differs')
+                except Exception:
+                    obs.add('observation:point-difference-raises')
             except Exception as exc:
                 viol.append(Violation(
                     f'C18:iso:arith-crash:{exc_sig(exc)}',
@@ -524,10 +585,10 @@ def _check_iso(case, ctx):
             if not ok:
                 viol.append(Violation(
                     'C18:iso:arith',
-                    f'p={s!r} i={isr!r} under {kw}: p+i={q} (instant {qv}, '
-                    f'expected {v + n}), (p+i)-i={back} (instant {bv}, '
-                    f'expected {v}), (p+i)-p={diff}, p-(p-i)={d2} (expected '
-                    f'both == {isr})'))
+                    f'p={s!r} i={isr!r} under {kw}: p+i={q} (instant {qv}), '
+                    f'(p+i)-i={back} (instant {bv}, expected {v} = the '
+                    f'original point)'))
+    classes.extend(sorted(obs))
     if crossed:
         classes.append('crosses-month-or-year')
     nontrivial = respelled or len(zones) > 1 or crossed
